@@ -8,6 +8,7 @@ package dv
 import (
 	"github.com/named-data/ndnd/dv/table"
 	"github.com/named-data/ndnd/dv/tlv"
+	"github.com/named-data/ndnd/std/ndn"
 )
 
 // VerifSnapshot is a consistent copy of a router's tables, taken under the router mutex.
@@ -41,4 +42,23 @@ func (dv *Router) VerifSnapshot() VerifSnapshot {
 		AdvertSeq:  dv.advertSyncSeq,
 		SnapshotAt: dv.pfx.VerifSnapshotAt(),
 	}
+}
+
+// Synchronous access to the routing daemon's (unexported) handlers, for harnesses that own
+// the schedule: each wrapper does nothing but call the handler on the caller's goroutine
+// (the engine callbacks registered by register() run them with `go`).
+
+// VerifOnSyncInterest calls advertSyncOnInterest (an advertisement sync Interest arrived).
+func (dv *Router) VerifOnSyncInterest(args ndn.InterestHandlerArgs, active bool) {
+	dv.advertSyncOnInterest(args, active)
+}
+
+// VerifOnAdvertData calls advertDataHandler (an advertisement Data arrived).
+func (dv *Router) VerifOnAdvertData(data ndn.Data) {
+	dv.advertDataHandler(data)
+}
+
+// VerifCheckDeadNeighbors calls checkDeadNeighbors (one tick of the dead-neighbour check).
+func (dv *Router) VerifCheckDeadNeighbors() {
+	dv.checkDeadNeighbors()
 }
